@@ -101,7 +101,13 @@ def fixture():
     daz = xr.DataArray(rs.randint(-9, 9, size=(2, nz)).astype(float), dims=("col", "zc"), name="phi")
     tdata = xr.DataArray(np.tile(np.arange(nz) * 2.0 + 1, (2, 1)), dims=("col", "zc"))           # anonymous on purpose
     tdata_o = xr.DataArray(np.tile(np.arange(nz + 1) * 2.0, (2, 1)), dims=("col", "zo"), name="theta")
+    # a dataset annotated per COMODO, with the shift attribute in the spellings the parser tolerates (text, a sequence)
+    dsc = xr.Dataset(coords={"xc": ("xc", np.arange(nx) + 0.5, {"axis": "X"}),
+                             "xg": ("xg", np.arange(nx) * 1.0, {"axis": "X", "c_grid_axis_shift": "-0.5"}),
+                             "zc": ("zc", np.arange(3) + 0.5, {"axis": "Z"}),
+                             "zo": ("zo", np.arange(4) * 1.0, {"axis": "Z", "c_grid_axis_shift": [-0.5]})})
     objs = {
+        "dsc": dsc,
         "da": da, "dal": dal, "ds": ds, "dsf": dsf, "dsz": dsz, "u": u, "v": v, "sc": sc, "daz": daz, "tdata": tdata, "tdata_o": tdata_o,
         "vecdict": {"X": u}, "other": {"Y": v}, "vec2": {"X": u, "Y": v}, "vecplain": {"X": dal}, "otherplain": {"Y": dal},
         "bdict": {"X": "fill", "Y": "extend"}, "fdict": {"X": 1.0, "Y": 2.0}, "todict": {"X": "left", "Y": "left"},
@@ -117,6 +123,11 @@ def fixture():
 
 def _stencil3(a):
     return a[..., 2:] - a[..., :-2]
+
+
+def _stencil3_x_of_xy(a):
+    # core dims (X, Y) last: three-point stencil along X
+    return a[..., 2:, :] - a[..., :-2, :]
 
 
 def catalogue():
@@ -135,7 +146,12 @@ def catalogue():
                       autoparse_metadata=False)
         return grid_settings(g)
 
+    def ctor_autoparse(e):
+        g = xgcm.Grid(e["objs"]["dsc"], periodic=False)
+        return grid_settings(g)
+
     C = {
+        "ctor_autoparse": ctor_autoparse,
         "diff_multi": lambda e: e["G"].diff(e["objs"]["da"], ["X", "Y"], to=e["objs"]["todict"], boundary=e["objs"]["bdict"], fill_value=e["objs"]["fdict"]),
         "interp_str": lambda e: e["G"].interp(e["objs"]["da"], "X"),
         "max_extend": lambda e: e["G"].max(e["objs"]["da"], ["Y"], boundary="extend"),
@@ -152,6 +168,10 @@ def catalogue():
         "pad": lambda e: pad(e["objs"]["da"], e["G"], boundary_width=e["objs"]["bw"], boundary=e["objs"]["bdict"], fill_value=e["objs"]["fdict"]),
         "ufunc": lambda e: e["G"].apply_as_grid_ufunc(_stencil3, e["objs"]["da"], axis=[("X",)], signature="(X:center)->(X:center)",
                                                       boundary_width=e["objs"]["bw"], boundary=e["objs"]["bdict"], fill_value=e["objs"]["fdict"]),
+        # a signature over two axes with widths given for one of them only (the same mapping object the one-axis call uses)
+        "ufunc_2ax": lambda e: e["G"].apply_as_grid_ufunc(_stencil3_x_of_xy, e["objs"]["da"], axis=[("X", "Y")],
+                                                          signature="(X:center,Y:center)->(X:center,Y:center)",
+                                                          boundary_width=e["objs"]["bw"], boundary=e["objs"]["bdict"], fill_value=e["objs"]["fdict"]),
         "vec_diff": lambda e: e["F"].diff(e["objs"]["vecdict"], "X", other_component=e["objs"]["other"]),
         "vec_interp": lambda e: e["F"].interp(e["objs"]["vecdict"], "X", other_component=e["objs"]["other"], boundary=e["objs"]["bdict"]),
         "diff_2d_vector": lambda e: e["F"].diff_2d_vector(e["objs"]["vec2"], boundary="fill"),
